@@ -56,6 +56,8 @@ def cases(draw):
     p = {"meth": meth, "w": w, "sub": sub, "H": H, "W": W, "left": left, "right": right, "nb": nb,
          "band": draw(st.integers(0, nb - 1)), "right_perm": draw(st.permutations(list(range(nb)))),
          "valid": conv[0], "nodata": conv[1],
+         # each image dataset announces its own mask convention
+         "conv_right": draw(st.sampled_from([None, None, None, [1, 0], [2, 1], [0, 255]])),
          "mask_left": draw(gen.sparse_mask(H, W)), "mask_right": draw(gen.sparse_mask(H, W)),
          "disp": [a, b], "oversize": oversize}
     if grid:
@@ -74,7 +76,10 @@ def body(ctx: Ctx, p: dict) -> None:
     L = np.array(p["left"], dtype=np.float32)
     R = np.array(p["right"], dtype=np.float32)
     ML = gen._mask(p["mask_left"], H, W, p["valid"], p["nodata"])
-    MR = gen._mask(p["mask_right"], H, W, p["valid"], p["nodata"])
+    vr, nr = p.get("conv_right") or (p["valid"], p["nodata"])
+    MR = gen._mask(p["mask_right"], H, W, vr, nr)
+    # the reference reads canonical masks (0 valid, 1 no-data, other invalid)
+    MLc, MRc = gen._mask(p["mask_left"], H, W, 0, 1), gen._mask(p["mask_right"], H, W, 0, 1)
     if "grid_min" in p:
         dmin, dmax = np.array(p["grid_min"], dtype=np.float32), np.array(p["grid_max"], dtype=np.float32)
     else:
@@ -92,7 +97,8 @@ def body(ctx: Ctx, p: dict) -> None:
         Lin, Rin = L[0], R[0]
     try:
         res = drive.run_pipeline(Lin, Rin, {"matching_cost": mc}, (dmin, dmax), msk_left=ML, msk_right=MR, bands=bands,
-                                 right_bands=right_bands, valid=p["valid"], nodata=p["nodata"])
+                                 right_bands=right_bands, valid=p["valid"], nodata=p["nodata"], valid_right=vr,
+                                 nodata_right=nr)
     except Exception as exc:  # noqa: BLE001
         if p["oversize"] and max(abs(p["disp"][0]), abs(p["disp"][1])) > W - p["w"]:
             ctx.violation("C02/disparity-beyond-image-overlap-raises",
@@ -102,8 +108,7 @@ def body(ctx: Ctx, p: dict) -> None:
         raise
     cv = res.machine.left_cv
     got = cv["cost_volume"].data
-    disps, exp = ref.cost_volume(L[p["band"]], R[p["band"]], ML, MR, dmin, dmax, p["meth"], p["w"], p["sub"],
-                                 p["valid"], p["nodata"])
+    disps, exp = ref.cost_volume(L[p["band"]], R[p["band"]], MLc, MRc, dmin, dmax, p["meth"], p["w"], p["sub"], 0, 1)
     if not np.array_equal(cv.coords["disp"].data.astype(float), disps):
         ctx.violation("C02/disparity-axis-wrong", f"{cv.coords['disp'].data.tolist()} expected {disps.tolist()}")
         return
@@ -134,6 +139,8 @@ def body(ctx: Ctx, p: dict) -> None:
     classes = [p["meth"]]
     if ML is not None or MR is not None:
         classes.append("mask")
+    if MR is not None and (vr, nr) != (p["valid"], p["nodata"]):
+        classes.append("right-mask-own-convention")
     if p["sub"] > 1:
         classes.append("fractional")
     if "grid_min" in p:
